@@ -4,6 +4,11 @@ import Driver.Sec
 import Driver.Txn
 import Driver.Srv
 import Driver.Trav
+import Driver.Ann
+import Driver.Bep44
+import Driver.Rate
+import Driver.Krpc
+import Driver.Query
 open Drv
 
 structure St where
@@ -11,6 +16,8 @@ structure St where
   txn : TxnSt := {}
   srv : SrvSt := {}
   trav : TravSt := {}
+  b44 : Drv.B44.BSt := {}
+  rate : RateSt := {}
 
 def step (s : St) (line : String) : St × String :=
   match (line.trimAscii.toString.splitOn " ").filter (· ≠ "") with
@@ -21,6 +28,11 @@ def step (s : St) (line : String) : St × String :=
   | "SEC" :: args => (s, stepSec args)
   | "SRV" :: args => let (c, o) := stepSrv s.srv args; ({ s with srv := c }, o)
   | "TRAV" :: args => let (c, o) := stepTrav s.trav args; ({ s with trav := c }, o)
+  | "ANN" :: args => (s, stepAnn args)
+  | "B44" :: args => let (b, o) := Drv.B44.stepB44 s.b44 args; ({ s with b44 := b }, o)
+  | "RATE" :: args => let (c, o) := stepRate s.rate args; ({ s with rate := c }, o)
+  | "KRPC" :: args => (s, stepKrpc args)
+  | "QRY" :: args => (s, stepQry args)
   | "TXN" :: args => let (c, o) := stepTxn s.txn args; ({ s with txn := c }, o)
   | _ => (s, "bad-op")
 
